@@ -28,6 +28,11 @@ CLAIMED["C15"] = ("exploration",
    "Death races are sampled, not enumerated: the harness cannot pin the scheduler between wait4 and the tracer's ptrace request. A program that stops itself and stays stopped is not judged as a hang.",
    "property-based testing / grammar-based fuzzing of tracee programs (rapid)", "§3 C15")
 
+CLAIMED["C09"] = ("exploration",
+   "The (runner x ending) grid is enumerated by the generator: 4 runners (ptrace, namespace, container sync-before/after) x {exit codes (all 256 in the thorough tier), every terminating signal 1..64 self-sent with default disposition, real SEGV/FPE/ILL/BUS/TRAP faults, SIGSYS from a kill-default filter, SIGKILL sent from the host}; random cases add children that exit first, are killed, keep running or die of a benign signal. Each Result is compared with the README status table.",
+   "Rows the kernel cannot produce are counted, not judged: self-sent signals to the pid-namespace init of the namespace runner, and self-sent signals the container init leaves ignored (SIG_IGN survives execve). The exit value is asserted only where the table defines it (exit codes, Signalled).",
+   "generator-driven enumeration + property-based testing (rapid) against the documented table", "§3 C09")
+
 NOT_YET = {}
 
 def main():
